@@ -26,6 +26,12 @@ fn gf_mul(mut a: u8, mut b: u8) -> u8 {
 }
 
 fn sbox() -> [u8; 256] {
+    // computed once per process (the brute-force inverse is slow under Miri)
+    static SBOX: std::sync::OnceLock<[u8; 256]> = std::sync::OnceLock::new();
+    *SBOX.get_or_init(compute_sbox)
+}
+
+fn compute_sbox() -> [u8; 256] {
     // multiplicative inverse in GF(2^8) followed by the affine transformation
     let mut inv = [0u8; 256];
     for a in 1..=255u8 {
